@@ -6,3 +6,7 @@ import PorepyVerif.C04.Props
 #print axioms PorepyVerif.C04.total_residual_eq_total_accumulation_upwind
 #print axioms PorepyVerif.C04.closed_no_source_conservation
 #print axioms PorepyVerif.C04.converged_step_conserves
+#print axioms PorepyVerif.C04.tpfa_neumann_consistent
+#print axioms PorepyVerif.C04.adtpfa_neumann_consistent
+#print axioms PorepyVerif.C04.adtpfa_shipped_gain_zero
+#print axioms PorepyVerif.C04.total_residual_eq_total_accumulation_coded
